@@ -415,7 +415,7 @@ func main() {
 	x.life = hx.CaseFile{Name: "life", Imports: importsLife, Ok: "rl_case_ok", Type: "rlcase"}
 	x.iw = hx.CaseFile{Name: "iw", Imports: importsLife, Ok: "iw_case_ok", Type: "iwcase"}
 	x.ex = hx.CaseFile{Name: "ex", Imports: importsLife, Ok: "ex_case_ok", Type: "excase"}
-	x.rxr = hx.CaseFile{Name: "rxr", Imports: importsLife, Ok: "rxr_case_ok code_routed", Type: "rxrcase"}
+	x.rxr = hx.CaseFile{Name: "rxr", Imports: importsLife + "From XV Require Import C06.ModelExt.\n", Ok: "rxr_case_ok code_routed", Type: "rxrcase"}
 	x.idc = hx.CaseFile{Name: "idc", Imports: importsLife, Ok: "id_case_ok code_gencond", Type: "idcase"}
 	xmpp.VerifSetHook(hookDispatch)
 	currentPath = filepath.Join(o.Out, "current.json")
